@@ -605,6 +605,12 @@ def fam_c14(tier, seed):
     if tier == "thorough":
         for l in sk.bs_family(2, 3, [0, 30], tickers=("A", "B"), need_sell=True):
             sks.append(mk(i, "r", l, wit=WIT, calc=1)); i += 1
+    # the MCP tools parse_transactions (DSL and JSON input) and convert_to_dsl on the single-line and list skeletons
+    from . import symx as _symx
+    if _symx.MCP_OK:
+        for s0 in list(sks):
+            if s0["id"][0] in "kyr" and (s0["id"][0] != "k" or tier == "thorough" or s0["lines"][0][1] in ("A", "BUY", "TAX1", "0A")):
+                sks.append(dict(s0, id=f"m{i}", opts=dict(s0["opts"], variant="mcp"))); i += 1
     return sks
 
 
@@ -674,6 +680,15 @@ def fam_c17(tier, seed):
             l = [fx_line("B", 0, "GBP", "GBP"), fx_line(k, 1, cur, "GBP"), fx_line("S", 30, "GBP", "GBP")]
             sks.append(mk(i, "e", l, base=BASES[2], wit=WIT, mode="PF")); i += 1
         sks.append(mk(i, "e", [fx_line("B", 0, cur, "GBP"), fx_line("S", 30, "GBP", cur)], base=BASES[2], wit=WIT, mode="PF")); i += 1
+    # the MCP tools (calculate_report all years and per year, explain_matching per disposal) on the same ledgers, fed as a
+    # JSON array and as DSL text; handlers compiled from the current source of crates/cgt-mcp (skipped if that fails)
+    from . import symx as _symx
+    if _symx.MCP_OK:
+        for s0 in list(sks):
+            if s0["id"][0] in "te" and (tier == "thorough" or len(s0["lines"]) <= 3):
+                for inp in ("json", "dsl"):
+                    o = dict(s0["opts"], variant="mcp", input=inp)
+                    sks.append(dict(s0, id=f"m{i}", opts=o)); i += 1
     return sks
 
 
